@@ -1,7 +1,7 @@
 (* entry points of the transform kinds (xwrap, xextract, xrtrip, xreplace): val -> val, and the
    layer-B predicates evaluated on what the implementation did.  Glue only. *)
 From Coq Require Import Strings.String.
-From GoCar Require Import Bytes Varint Cid Header Frame V2Header Scan Index Val RunScan Transform.
+From GoCar Require Import Bytes Varint Cid Header Frame V2Header Scan Index IndexGen Val RunScan Transform.
 
 (* (maxh zeof codec storeid maxcid maxseek) *)
 Definition v_xopts (v : val) : xopts :=
@@ -31,6 +31,37 @@ Definition file_eqb (a b : file) : bool :=
   end.
 
 Definition fail (clause : string) : val := VL [VT "FAIL"; VT clause].
+
+(* multiset equality of offset lists (GetAll's order inside equal digests is sort.Sort's) *)
+Fixpoint ins_n (x : N) (l : list N) : list N :=
+  match l with [] => [x] | y :: t => if x <=? y then x :: l else y :: ins_n x t end.
+Definition sort_n (l : list N) : list N := fold_right ins_n [] l.
+Fixpoint list_n_eqb (a b : list N) : bool :=
+  match a, b with
+  | [], [] => true
+  | x :: a', y :: b' => (x =? y) && list_n_eqb a' b'
+  | _, _ => false
+  end.
+Definition perm_n_eqb (a b : list N) : bool := list_n_eqb (sort_n a) (sort_n b).
+
+Definition g_of_x (o : xopts) : gopts := mkgopts (x_zeof o) (x_maxh o) (x_storeid o) (x_maxcid o).
+
+(* the conclusion of C10_wrap_index_correct evaluated on the implementation's index bytes: they
+   read back entirely, and for the key of every section GetAll answers exactly the offsets of the
+   indexed sections carrying that key *)
+Definition index_resolves (o : xopts) (idxbytes : bytes) (hl : N) (blocks : list block) : bool :=
+  match idx_read idxbytes with
+  | Ok (i, []) =>
+    forallb (fun b : block =>
+               match cid_parse (fst b) with
+               | Some p =>
+                 perm_n_eqb (idx_getall i (c_mhcode p) (c_digest p))
+                            (spec_lookup (g_of_x o) (negb (x_codec o =? codec_sorted))
+                                         (c_mhcode p) (c_digest p) hl blocks)
+               | None => false
+               end) blocks
+  | _ => false
+  end.
 
 (* ---- xwrap: (opts, mode, x, hdr table, expect) --------------------------------------------
    mode 0: WrapV1(bytes.Reader, bytes.Buffer); 1: WrapV1File to an absent path; 2: WrapV1File
@@ -81,6 +112,25 @@ Definition prop_xwrap (input obs : val) : val :=
       | Some i0 =>
         if negb ok then fail "wrap-of-valid-carv1-failed" else
         let recs := spec_records (x_storeid o) (blen (ld (enc_header (Some roots) 1))) blocks in
+        if negb (bytes_eqb (drop (51 + blen x) out) (idx_write (idx_load recs i0))) then fail "wrap-index-wrong"
+        else if index_resolves o (drop (51 + blen x) out) (blen (ld (enc_header (Some roots) 1))) blocks
+        then VT "ok" else fail "wrap-index-does-not-resolve-sections"
+      end
+  else if is_tag (vnth 0 expect) "carv2" then
+    (* x is a CARv2 built around enc_payload roots blocks: the appended index is the inner payload's *)
+    let roots := vcids (vnth 1 expect) in
+    let blocks := vblocks (vnth 2 expect) in
+    let guard :=
+      (10 <=? x_maxh o) && (blen (enc_header (Some roots) 1) <=? x_maxh o) &&
+      forallb (fun b => negb (keep_cid (x_storeid o) (fst b)) || (blen (fst b) <=? x_maxcid o)) blocks &&
+      seek_ok o (blen x) in
+    if negb guard then VT "ok"
+    else
+      match idx_new (x_codec o) with
+      | None => if ok then fail "wrap-succeeded-with-unknown-codec" else VT "ok"
+      | Some i0 =>
+        if negb ok then fail "wrap-of-valid-carv2-source-failed" else
+        let recs := spec_records (x_storeid o) (blen (ld (enc_header (Some roots) 1))) blocks in
         if bytes_eqb (drop (51 + blen x) out) (idx_write (idx_load recs i0)) then VT "ok"
         else fail "wrap-index-wrong"
       end
@@ -111,6 +161,9 @@ Definition prop_xextract (input obs : val) : val :=
     if negb ok then fail "extract-of-valid-carv2-failed"
     else if file_eqb dstf (Some (take dsize (drop doff a))) then VT "ok"
     else fail "extract-not-exact-payload"
+  else if is_tag (vnth 0 expect) "short" then
+    (* the header declares a window that runs past the end of the file *)
+    if ok then fail "extract-short-source-succeeded" else VT "ok"
   else if ok then
     (* whatever the file: success means the destination is exactly the declared window *)
     match read_header hdr (x_maxh o) a with
